@@ -323,6 +323,36 @@ Theorem C14_h3_one_reader_for_both_ways :
 Proof. exact h3_one_reader_for_both_ways. Qed.
 Print Assumptions C14_h3_one_reader_for_both_ways.
 
+(* ---------- what went before on the connection (bodiless answers, other request kinds) ---------- *)
+
+(* whatever exchanges went before on a connection - answered with or without a body, asked for gzip or
+   not - an exchange is answered from its own request and the settings of its moment *)
+Theorem C14_previous_exchanges_irrelevant : forall st pre1 pre2 lc1 lc2 cur q ended r,
+  last (live_run (live_exchange st) lc1 (pre1 ++ [(cur, q, ended, r)])) r =
+  last (live_run (live_exchange st) lc2 (pre2 ++ [(cur, q, ended, r)])) r.
+Proof. exact live_run_prefix_irrelevant. Qed.
+Print Assumptions C14_previous_exchanges_irrelevant.
+
+(* HTTP/1: the asked-gzip flag travels with the request (table regenerated from transport.go) *)
+Theorem C14_added_gzip_travels_with_the_request :
+  h1_added_gzip_sites =
+  [ (bs "readLoop", bs "use", bs "rc.addedGzip");
+    (bs "roundTrip", bs "set", bs "addedGzip: requestedGzip") ].
+Proof. exact added_gzip_travels_with_the_request. Qed.
+Print Assumptions C14_added_gzip_travels_with_the_request.
+
+(* the flag kept on the connection and taken only where a body is built (NOT the code): after a 204 the
+   next answer on the connection is gunzipped although the caller asked for gzip itself *)
+Theorem C14_connection_flag_refuted :
+  let steps := [(s_off, q_plain, false, r_no_content); (s_off, q_caller_gzip, false, r_gz)] in
+  h1_run_connflag {| pc_added := false |} steps =
+    [r_no_content; rewrite r_gz (Lazy Gzip (bs "zzzz"))] /\
+  live_run (live_exchange H1) {| lc_opened := s_off; lc_exchanges := 0 |} steps = [r_no_content; r_gz] /\
+  h1_run_connflag {| pc_added := false |} [(s_off, q_plain, false, r_deflate); (s_off, q_caller_gzip, false, r_gz)] =
+    [r_deflate; r_gz].
+Proof. exact connflag_refuted. Qed.
+Print Assumptions C14_connection_flag_refuted.
+
 (* ---------- several clients (Client.Clone) ---------- *)
 
 (* what client k gets depends on client k's own settings only, whatever the original and the other
